@@ -306,14 +306,19 @@ def run_case(case, res):
                 # join="" concatenates the lines (format == "".join(format_iter))
                 if sname not in ("default",) and not sname.startswith("custom"):
                     kwj = {"style": "list"} if sname == "list" else {"style": sname}
-                    if start == -1:
-                        a = attempt(lambda: t.format(repr="<{node.data_id}>" if eq else "<{node.data}>", join="", **kwj))
-                        b = attempt(lambda: "".join(t.format_iter(repr="<{node.data_id}>" if eq else "<{node.data}>", **kwj)))
-                    else:
-                        a = attempt(lambda: nodes[start].format(repr="<{node.data_id}>" if eq else "<{node.data}>", join="", add_self=variant == "self", **kwj))
-                        b = attempt(lambda: "".join(nodes[start].format_iter(repr="<{node.data_id}>" if eq else "<{node.data}>", add_self=variant == "self", **kwj)))
-                    if a != b:
-                        bad.append(f"format(join='') = {a!r} differs from ''.join(format_iter()) = {b!r} (style {sname})")
+                    # ... and so does every other separator, also one made of characters that end (or begin) the renderings
+                    for J in ("", ">", "<>", " | >0123456789nabc<", "TITLE"):
+                        rp = "<{node.data_id}>" if eq else "<{node.data}>"
+                        for extra in ({}, {"title": "T<n1>"}, {"title": False}) if start == -1 else ({},):
+                            if start == -1:
+                                a = attempt(lambda: t.format(repr=rp, join=J, **kwj, **extra))
+                                b = attempt(lambda: J.join(t.format_iter(repr=rp, **kwj, **extra)))
+                            else:
+                                a = attempt(lambda: nodes[start].format(repr=rp, join=J, add_self=variant == "self", **kwj))
+                                b = attempt(lambda: J.join(nodes[start].format_iter(repr=rp, add_self=variant == "self", **kwj)))
+                            res.count("join_law_checks")
+                            if a != b:
+                                bad.append(f"format(join={J!r}{', ' + repr(extra) if extra else ''}) = {a!r} differs from join.join(format_iter()) = {b!r} (style {sname})")
                 # format_iter agrees with format
                 if start == -1:
                     a = attempt(lambda: list(t.format_iter(repr="<{node.data}>", style=None if sname in ("default", "list") or sname.startswith("custom") else sname)))
